@@ -1,5 +1,7 @@
 import MdsVerif.Proofs.Mbits
 import MdsVerif.Proofs.Trunc
+import MdsVerif.Proofs.NatCmp
+import MdsVerif.Proofs.NatOrder
 /-!
 # C20 — byte and string helpers agree with their naive definitions on every input
 
@@ -132,5 +134,81 @@ example : Mstr.trunc [0x80, 0x80, 0x80, 0x80, 0x80, 0x80, 0x61] 6 = .ok [] := by
 example : Bytes.validUTF8 [0x61, 0xF0, 0x9F, 0x98, 0x80, 0x62] = true := by decide
 example : Bytes.validUTF8 [0xED, 0xA0, 0x80] = false := by decide   -- a surrogate
 example : Bytes.validUTF8 [0xC0, 0x80] = false := by decide         -- overlong
+
+/-!
+## mstr.CompareNatural
+
+`Spec.Bytes.key` tokenises a string into maximal digit runs (their numeric
+value, an unbounded natural number) and maximal non-digit runs
+(`key_digit_run`, `key_nondigit_run`); keys are compared lexicographically,
+numbers by value, strings bytewise, a number against a string by the string's
+first byte (`'9' <` it or not).  `cmpNat_eq_key`: the Go loop (model with
+64-bit wrapping `int`) returns exactly this comparison **provided no digit run
+overflows `int`** (`noOverflow`: every run's value is below 2^63 — true in
+particular when every run has at most 18 digits, `short_runs_fit`).  The key
+order is a total preorder with values in {-1,0,1} whose zero is key equality,
+i.e. equality up to leading zeros of digit runs.  With overflow the property
+fails (`overflow_witness`), which is why the property text excludes it.
+-/
+
+/-- the Go loop computes the key comparison; fuel never runs out -/
+theorem cmpNat_eq_key (a b : List UInt8) (ha : Bytes.noOverflow a = true) (hb : Bytes.noOverflow b = true) :
+    Mstr.compareNatural a b = some (Bytes.natCompare a b) :=
+  NatCmp.cmpLoop_eq_key _ a b (Nat.lt_succ_self _) ha hb
+
+/-- a digit run of at most 18 digits has a value that fits `int` -/
+theorem short_runs_fit (run : List UInt8) (hd : ∀ b ∈ run, Bytes.isDigit b = true) (hlen : run.length ≤ 18) :
+    Bytes.decVal run < 9223372036854775808 := NatCmp.decVal_lt run hd hlen
+
+/-- `key` really is the tokenisation: a maximal digit run becomes its value … -/
+theorem key_digit_run (run rest : List UInt8) (hd : ∀ b ∈ run, Bytes.isDigit b = true) (hne : run ≠ [])
+    (hrest : ∀ c t, rest = c :: t → Bytes.isDigit c = false) :
+    Bytes.key (run ++ rest) = .num (Bytes.decVal run) :: Bytes.key rest :=
+  NatCmp.key_digit_run run rest hd hne hrest
+
+/-- … and a maximal non-digit run stays as it is -/
+theorem key_nondigit_run (run rest : List UInt8) (hd : ∀ b ∈ run, Bytes.isDigit b = false) (hne : run ≠ [])
+    (hrest : ∀ c t, rest = c :: t → Bytes.isDigit c = true) :
+    Bytes.key (run ++ rest) = .str run :: Bytes.key rest :=
+  NatCmp.key_nondigit_run run rest hd hne hrest
+
+/-- the key order: values in {-1,0,1}, antisymmetric, transitive, zero exactly on equal keys -/
+theorem C20_natcmp_preorder (a b c : List UInt8) :
+    (Bytes.natCompare a b = -1 ∨ Bytes.natCompare a b = 0 ∨ Bytes.natCompare a b = 1) ∧
+    Bytes.natCompare b a = - Bytes.natCompare a b ∧
+    (Bytes.natCompare a b ≤ 0 → Bytes.natCompare b c ≤ 0 → Bytes.natCompare a c ≤ 0) ∧
+    (Bytes.natCompare a b = 0 ↔ Bytes.key a = Bytes.key b) :=
+  ⟨NatOrder.key_range _ _, NatOrder.key_antisymm _ _, NatOrder.key_trans _ _ _, NatOrder.key_zero _ _⟩
+
+/-- **C20, CompareNatural**: on strings whose digit runs do not overflow, the implementation's
+results form a total preorder (in {-1,0,1}, antisymmetric, transitive) that is 0 exactly for
+strings with equal keys -/
+theorem C20_compareNatural (a b c : List UInt8) (ha : Bytes.noOverflow a = true) (hb : Bytes.noOverflow b = true)
+    (hc : Bytes.noOverflow c = true) :
+    ∃ ab ba bc ac : Int,
+      Mstr.compareNatural a b = some ab ∧ Mstr.compareNatural b a = some ba ∧
+      Mstr.compareNatural b c = some bc ∧ Mstr.compareNatural a c = some ac ∧
+      (ab = -1 ∨ ab = 0 ∨ ab = 1) ∧ ba = -ab ∧ (ab ≤ 0 → bc ≤ 0 → ac ≤ 0) ∧
+      (ab = 0 ↔ Bytes.key a = Bytes.key b) := by
+  obtain ⟨h1, h2, h3, h4⟩ := C20_natcmp_preorder a b c
+  exact ⟨_, _, _, _, cmpNat_eq_key a b ha hb, cmpNat_eq_key b a hb ha, cmpNat_eq_key b c hb hc,
+    cmpNat_eq_key a c ha hc, h1, h2, h3, h4⟩
+
+/-! non-vacuity: "a2b" < "a12b" (numeric), "a007" = "a7" ≠ "a70", digit against letter by first byte,
+and the no-overflow hypothesis is needed: 2^64 wraps to 0 -/
+example : Mstr.compareNatural [0x61, 0x32, 0x62] [0x61, 0x31, 0x32, 0x62] = some (-1) := by decide
+example : Mstr.compareNatural [0x61, 0x30, 0x30, 0x37] [0x61, 0x37] = some 0 := by decide
+example : Bytes.key [0x61, 0x30, 0x30, 0x37] = [.str [0x61], .num 7] := by decide
+example : Mstr.compareNatural [0x61, 0x37, 0x30] [0x61, 0x37] = some 1 := by decide
+example : Mstr.compareNatural [0x31, 0x32] [0x61] = some (-1) := by decide
+example : Mstr.compareNatural [0x31, 0x32] [0x2f] = some 1 := by decide
+example : Bytes.noOverflow [0x61, 0x30, 0x30, 0x37] = true := by decide
+/-- "18446744073709551616" (2^64) compares equal to "0" in the model of the Go code -/
+theorem overflow_witness :
+    Mstr.compareNatural [0x31,0x38,0x34,0x34,0x36,0x37,0x34,0x34,0x30,0x37,0x33,0x37,0x30,0x39,0x35,0x35,0x31,0x36,0x31,0x36] [0x30]
+      = some 0 ∧
+    Bytes.natCompare [0x31,0x38,0x34,0x34,0x36,0x37,0x34,0x34,0x30,0x37,0x33,0x37,0x30,0x39,0x35,0x35,0x31,0x36,0x31,0x36] [0x30]
+      = 1 := by
+  constructor <;> decide
 
 end MdsVerif.Props.C20
